@@ -111,6 +111,34 @@ Theorem C19_append : forall st q items,
 Proof. exact append_spec. Qed.
 Print Assumptions C19_append.
 
+(* a job constructor: requires exactly what required= names (never itself), registered in
+   scheduler= *)
+Theorem C19_newjob : forall st j required scheduler,
+  let o := step_code st (NewJob j required scheduler) in
+  snd o = None /\
+  (forall x, In x (req (fst o) j) <-> In x (names (seqs st) required) /\ x <> j) /\
+  (forall k x, k <> j -> In x (req (fst o) k) <-> In x (req st k)) /\
+  (forall s x, In x (members (fst o) s) <->
+               In x (members st s) \/ (scheduler = Some s /\ x = j)) /\
+  (forall q, seqs (fst o) q = seqs st q).
+Proof. exact newjob_spec. Qed.
+Print Assumptions C19_newjob.
+
+(* a (nested) Scheduler constructor: contains exactly the flattened items; as a job it behaves as
+   above *)
+Theorem C19_newsched : forall st s items required scheduler,
+  let o := step_code st (NewSched s items required scheduler) in
+  snd o = None /\
+  (forall x, In x (req (fst o) s) <-> In x (names (seqs st) required) /\ x <> s) /\
+  (forall k x, k <> s -> In x (req (fst o) k) <-> In x (req st k)) /\
+  (forall x, In x (members (fst o) s) <->
+             In x (flat (seqs st) items) \/ (scheduler = Some s /\ x = s)) /\
+  (forall s' x, s' <> s -> In x (members (fst o) s') <->
+                In x (members st s') \/ (scheduler = Some s' /\ x = s)) /\
+  (forall q, seqs (fst o) q = seqs st q).
+Proof. exact newsched_spec. Qed.
+Print Assumptions C19_newsched.
+
 (* update(items) / add(item) register exactly the flattened jobs *)
 Theorem C19_update : forall st s items,
   let o := step_code st (Update s items) in
